@@ -139,6 +139,13 @@ pub(crate) fn derive_struct_diff_struct(struct_: &Struct) -> TokenStream {
     #[cfg(feature = "generated_setters")]
     let all_setters = attrs_all_setters(&struct_.attributes);
 
+    // the struct's name with its length in front: the aliases of exposed structs share a module, and those of
+    // `A` + `bc` must not meet those of `Ab` + `c`
+    let alias_owner = {
+        let name = struct_.name.as_ref().unwrap().trim_start_matches("r#");
+        format!("{}{}", name.len(), name)
+    };
+
     struct_
         .fields
         .iter()
@@ -297,9 +304,9 @@ pub(crate) fn derive_struct_diff_struct(struct_: &Struct) -> TokenStream {
                     };
                 },
                 (true, None, false)  => { // Recurse inwards and generate a Vec<SubStructDiff> instead of cloning the entire thing
-                    let typename = format!("__{}{}StructDiffVec", struct_.name.as_ref().unwrap().trim_start_matches("r#"), field_ident);
+                    let typename = format!("__{}{}StructDiffVec", alias_owner, field_ident);
                     l!(owned_type_aliases, "///Generated aliases from StructDiff\n type {} = Vec<<{} as StructDiff>::Diff>;", typename, field.ty.full());
-                    let typename_ref = format!("__{}{}StructDiffRefVec<'__diff_target>", struct_.name.as_ref().unwrap().trim_start_matches("r#"), field_ident);
+                    let typename_ref = format!("__{}{}StructDiffRefVec<'__diff_target>", alias_owner, field_ident);
                     l!(ref_type_aliases, "///Generated aliases from StructDiff\n type {} = Vec<<{} as StructDiff>::DiffRef<'__diff_target>>;", typename_ref, field.ty.full());
 
                     l!(diff_enum_body, " {}({}),", field_name, typename);
@@ -369,13 +376,13 @@ pub(crate) fn derive_struct_diff_struct(struct_: &Struct) -> TokenStream {
                     };
                 },
                 (true, None, true)  => { // Recurse inwards and generate an Option<Vec<SubStructDiff>> instead of cloning the entire thing
-                    let typename = format!("__{}{}StructDiffVec", struct_.name.as_ref().unwrap().trim_start_matches("r#"), field_ident);
+                    let typename = format!("__{}{}StructDiffVec", alias_owner, field_ident);
                     l!(owned_type_aliases, "///Generated aliases from StructDiff\n type {} = Vec<<{} as StructDiff>::Diff>;", 
                         typename,
                         field.ty.wraps.as_ref().expect("Option must wrap a type").get(0).expect("Option must wrap a type").full()
                     );
 
-                    let ref_typename = format!("__{}{}StructDiffRefVec<'__diff_target>", struct_.name.as_ref().unwrap().trim_start_matches("r#"), field_ident);
+                    let ref_typename = format!("__{}{}StructDiffRefVec<'__diff_target>", alias_owner, field_ident);
                     l!(
                         ref_type_aliases,
                         "///Generated aliases from StructDiff\n type {} = Vec<<{} as StructDiff>::DiffRef<'__diff_target>>;", 
